@@ -4,6 +4,7 @@
    chromosome's covered span, weight-averaged log2).  The record `seg` and the
    filter names are shared with the model; nothing else of the model is used. *)
 From CNV Require Import Base.Prelude Base.Str Model.Segfilters.
+From CNV Require Base.QNum Spec.Stats Model.Chromsort.     (* qualified use only *)
 
 (* ------------------------------------------------------------ maximal runs *)
 
@@ -152,3 +153,151 @@ Definition wavg_log2 (r : list seg) : Q :=
   (qsum (map (fun s => weight s * log2 s) r) / qsum (map weight r))%Q.
 Definition avg_log2 (r : list seg) : Q :=
   (qsum (map log2 r) / inject_Z (Z.of_nat (length r)))%Q.
+
+(* ============================================================ the merged row *)
+(* Every field of the row that replaces a run, written against plain rational
+   arithmetic (no Qred, no model code): Base/QNum.v's shared `median` and the
+   textbook weighted-median predicate of Spec/Stats.v are the only imports. *)
+
+Definition oq_equiv (a b : option Q) : Prop :=
+  match a, b with
+  | Some x, Some y => (x == y)%Q
+  | None, None => True
+  | _, _ => False
+  end.
+
+Definition run_weight (r : list seg) : Q := qsum (map weight r).
+
+(* `region_weight > 0` *)
+Definition weighted (r : list seg) : bool := qlt 0 (run_weight r).
+
+Definition avg (l : list Q) : Q := (qsum l / inject_Z (Z.of_nat (length l)))%Q.
+
+(* sum of w*x over sum of w *)
+Definition wavg (f : seg -> Q) (r : list seg) : Q :=
+  (qsum (map (fun s => weight s * f s) r) / run_weight r)%Q.
+
+(* weight-averaged; the plain average when the run carries no weight *)
+Definition run_mean (f : seg -> Q) (r : list seg) : Q :=
+  if weighted r then wavg f r else avg (map f r).
+
+Fixpoint present (l : list (option Q)) : list Q :=
+  match l with
+  | [] => []
+  | Some x :: t => x :: present t
+  | None :: t => present t
+  end.
+
+Definition complete (l : list (option Q)) : bool :=
+  forallb (fun o => match o with Some _ => true | None => false end) l.
+
+Definition odflt (o : option Q) : Q := match o with Some x => x | None => 0%Q end.
+
+(* an optional column (depth, baf): with weight, the weighted mean -- missing as
+   soon as one cell is missing; without, the plain mean of the present cells *)
+Definition run_mean_opt (f : seg -> option Q) (r : list seg) : option Q :=
+  if weighted r then
+    if complete (map f r) then Some (wavg (fun s => odflt (f s)) r) else None
+  else
+    match present (map f r) with
+    | [] => None
+    | l => Some (avg l)
+    end.
+
+(* distinct names in the order of their first occurrence *)
+Definition first_occurrences (l : list string) : list string :=
+  fold_left (fun acc x => if existsb (String.eqb x) acc then acc else acc ++ [x]) l [].
+
+Definition joined_genes (r : list seg) : string :=
+  String.concat "," (first_occurrences (map gene r)).
+
+(* largest present value; missing when none is present *)
+Definition qmax2 (a b : Q) : Q := if Qle_bool a b then b else a.
+Definition run_max (l : list (option Q)) : option Q :=
+  fold_right (fun x acc => Some (match acc with Some y => qmax2 x y | None => x end)) None (present l).
+
+(* (value, weight) pairs of a column / of the present cells of an optional column *)
+Definition col_pairs (f : seg -> Q) (r : list seg) : list (Q * Q) :=
+  map (fun s => (f s, weight s)) r.
+Fixpoint ocol_pairs (f : seg -> option Q) (r : list seg) : list (Q * Q) :=
+  match r with
+  | [] => []
+  | s :: t => match f s with Some x => (x, weight s) :: ocol_pairs f t | None => ocol_pairs f t end
+  end.
+
+(* the rounding allowance the weighted median makes: n * 2^-52 * total weight *)
+Definition wm_slack (ps : list (Q * Q)) : Q :=
+  (inject_Z (Z.of_nat (length ps)) * (1 # 4503599627370496) * Stats.wtotal ps)%Q.
+
+Definition nonneg_run (r : list seg) : Prop := Forall (fun s => (0 <= weight s)%Q) r.
+
+(* cn of the merged row: inside the range of the run's values (hence the common
+   value when they are all equal); np.median for a run without weight; for a
+   weighted run a weighted median up to the rounding allowance -- at most half
+   of the weight (+ allowance) lies strictly on either side *)
+Definition merged_cn (r : list seg) (o : seg) : Prop :=
+  (forall a b, (forall s, In s r -> a <= cn s <= b)%Q -> (a <= cn o <= b)%Q) /\
+  (weighted r = false -> cn o = QNum.median (map cn r)) /\
+  (weighted r = true -> nonneg_run r ->
+     Stats.is_weighted_median_upto (wm_slack (col_pairs cn r)) (cn o) (col_pairs cn r)).
+
+(* cn1: the same over the present cells; cn2 = cn - cn1 *)
+Definition merged_cn1 (r : list seg) (o : seg) : Prop :=
+  (forall a b m, (forall s x, In s r -> cn1 s = Some x -> a <= x <= b)%Q -> cn1 o = Some m -> (a <= m <= b)%Q) /\
+  (weighted r = true -> (cn1 o = None <-> present (map cn1 r) = [])) /\
+  (weighted r = false -> (cn1 o = None <-> complete (map cn1 r) = false)) /\
+  (weighted r = false -> complete (map cn1 r) = true -> cn1 o = Some (QNum.median (present (map cn1 r)))) /\
+  (weighted r = true -> nonneg_run r -> forall m, cn1 o = Some m ->
+     Stats.is_weighted_median_upto (wm_slack (ocol_pairs cn1 r)) m (ocol_pairs cn1 r)) /\
+  match cn1 o with
+  | Some m => oq_equiv (cn2 o) (Some (cn o - m)%Q)
+  | None => cn2 o = None
+  end.
+
+(* all fields of the row o that replaces the non-empty run r *)
+Definition merged_row (r : list seg) (o : seg) : Prop :=
+  spans_run r o /\
+  probes o = sumZ (map probes r) /\
+  (weight o == run_weight r)%Q /\
+  (log2 o == run_mean log2 r)%Q /\
+  gene o = joined_genes r /\
+  oq_equiv (depth o) (run_mean_opt depth r) /\
+  oq_equiv (baf o) (run_mean_opt baf r) /\
+  merged_cn r o /\ merged_cn1 r o /\
+  oq_equiv (pbt o) (run_max (map pbt r)) /\
+  (* the segmetrics columns are dropped *)
+  ci_lo o = None /\ ci_hi o = None /\ sem o = None.
+
+(* ================================================= equality of tables up to == *)
+
+Definition seg_eqv (a b : seg) : Prop :=
+  chrom a = chrom b /\ lo a = lo b /\ hi a = hi b /\ gene a = gene b /\
+  (log2 a == log2 b)%Q /\ probes a = probes b /\ (weight a == weight b)%Q /\
+  oq_equiv (depth a) (depth b) /\ oq_equiv (baf a) (baf b) /\
+  (cn a == cn b)%Q /\ oq_equiv (cn1 a) (cn1 b) /\ oq_equiv (cn2 a) (cn2 b) /\
+  oq_equiv (pbt a) (pbt b) /\
+  oq_equiv (ci_lo a) (ci_lo b) /\ oq_equiv (ci_hi a) (ci_hi b) /\ oq_equiv (sem a) (sem b).
+
+Definition table_eqv (t u : list seg) : Prop := Forall2 seg_eqv t u.
+
+(* allele-specific copy numbers as do_call writes them: both present or both
+   missing, and cn2 = cn - cn1 *)
+Definition alleles_consistent (t : list seg) : Prop :=
+  Forall (fun s => match cn1 s, cn2 s with
+                   | Some a, Some b => (b == cn s - a)%Q
+                   | None, None => True
+                   | _, _ => False
+                   end) t.
+
+(* ============================================= tables as GenomicArray.sort leaves them *)
+
+Definition seg_region (s : seg) : string * Z * Z := (chrom s, lo s, hi s).
+
+(* sorted by (sorter_chrom(chromosome), start, end) *)
+Definition genome_sorted (t : list seg) : Prop :=
+  StronglySorted (fun a b => Chromsort.region_leb seg_region a b = true) t.
+
+(* different chromosome names have different sort keys (chr1 and 1 do not occur together) *)
+Definition names_separable (t : list seg) : Prop :=
+  forall a b, In a t -> In b t ->
+    Chromsort.chrom_key (chrom a) = Chromsort.chrom_key (chrom b) -> chrom a = chrom b.
